@@ -451,6 +451,10 @@ class Builder(object):
     def connect(self, fr, dst, label=None, implicit=False, exc_type=None):
         for src, l in fr:
             lab = label if label is not None else l
+            if label == "exc" and l in ("T", "F"):
+                # the branch edge of a test inside a finally copy that continues with the re-raise: it stays a T/F edge (guards
+                # ask which branch was taken); the destination says that the exception goes on
+                lab = l
             e = Edge(src, dst, lab, implicit, exc_type)
             self.cfg.succ[src].append(e)
             self.cfg.pred[dst].append(e)
